@@ -865,6 +865,30 @@ pub fn check_c20(h: &mut Hist, ctx: &mut Ctx) {
     if max_ref > 2 {
         ctx.cov.count("c20_snapshots_with_outpoints_shared_by_forks");
     }
+    // per-block utxo deltas (kept outside the tree so that they survive upgrades)
+    {
+        let keys: BTreeSet<H> = bk.utxo_deltas.iter().map(|(b, _)| to_h(b)).collect();
+        if keys != live_set {
+            problems.push(format!(
+                "utxo-delta map: {} leaked, {} missing",
+                keys.difference(&live_set).count(),
+                live_set.difference(&keys).count()
+            ));
+        }
+        for (b, d) in bk.utxo_deltas.iter() {
+            let hh = to_h(b);
+            if let Some(blk) = h.model.blocks.get(&hh) {
+                let want: i64 = blk
+                    .txs
+                    .iter()
+                    .map(|t| t.outputs.len() as i64 - if t.is_coinbase() { 0 } else { t.inputs.len() as i64 })
+                    .sum();
+                if want != *d {
+                    problems.push(format!("utxo delta of block {} is {}, its transactions give {}", short(&hh), d, want));
+                }
+            }
+        }
+    }
     // announced headers
     let sh = h.model.stable_height();
     let by_hash: BTreeSet<H> = bk.next_by_hash.iter().map(|(b, _, _)| to_h(b)).collect();
